@@ -94,11 +94,18 @@ def plotIterNow (c : Config α) (numIter : Nat) : Bool :=
 def calcDef (c : Config α) (numIter : Nat) : Bool :=
   !c.skipDefCalc || decide (c.minIter < c.maxIter) || plotIterNow c numIter || decide (0 < c.minStag)
 
-/-- `_set_new_defect`: `d`/`fin` is what `_calc_def_norm` would return (it is only called when `calc_def`) -/
-def setNewDefect (c : Config α) (s : State α) (fin : Bool) (d : α) : Status × State α :=
+/-- `_set_new_defect` up to the call of `_analyse_defect`: `d`/`fin` is what `_calc_def_norm` would return (it is only
+    called when `calc_def`) -/
+def setNewDefectRaw (c : Config α) (s : State α) (fin : Bool) (d : α) : Status × State α :=
   let s1 := { s with numIter := s.numIter + 1, defPrev := s.defCur }
   let s2 := if calcDef c s1.numIter then { s1 with defCur := d, curFin := fin } else s1
   analyseDefect c s2 true
+
+/-- `_set_new_defect`: when the defect was NOT computed (`calc_def = false`) a `success` of `_analyse_defect` — which
+    would rest on the stale stored defect — is reported as `max_iter` (fix of finding c07-edge:F3, /repo 8aa081eb5) -/
+def setNewDefect (c : Config α) (s : State α) (fin : Bool) (d : α) : Status × State α :=
+  let r := setNewDefectRaw c s fin d
+  if !calcDef c (s.numIter + 1) && decide (r.1 = .success) then (.maxIter, r.2) else r
 
 /-- `_update_defect(def_cur_norm)` -/
 def updateDefect (c : Config α) (s : State α) (fin : Bool) (d : α) : Status × State α :=
